@@ -31,6 +31,9 @@ type Commander struct {
 	lastTXID   *big.Int
 	referencer *Referencer
 	mu         sync.Mutex
+	// sequencing makes "allocate the transaction id, chain the log, hand it to the
+	// batcher" one step, so that log ids and transaction ids reach the store in order
+	sequencing sync.Mutex
 
 	lastLog *ledger.ChainedLog
 	monitor bus.Monitor
@@ -139,6 +142,8 @@ func (commander *Commander) exec(ctx context.Context, parameters Parameters, scr
 			return nil, nil, NewErrNoPostings()
 		}
 
+		commander.sequencing.Lock()
+
 		// a dry run answers with the id the transaction would get, without consuming it
 		txID := commander.peekTXID()
 		if !parameters.DryRun {
@@ -158,6 +163,7 @@ func (commander *Commander) exec(ctx context.Context, parameters Parameters, scr
 		}
 
 		chainedLog, done, err := executionContext.AppendLog(ctx, log)
+		commander.sequencing.Unlock()
 		if err != nil {
 			return nil, nil, err
 		}
@@ -219,6 +225,9 @@ func (commander *Commander) SaveMeta(ctx context.Context, parameters Parameters,
 		if parameters.IdempotencyKey != "" {
 			log = log.WithIdempotencyKey(parameters.IdempotencyKey)
 		}
+
+		commander.sequencing.Lock()
+		defer commander.sequencing.Unlock()
 
 		return executionContext.AppendLog(ctx, log)
 	})
@@ -338,6 +347,9 @@ func (commander *Commander) DeleteMetadata(ctx context.Context, parameters Param
 		if parameters.IdempotencyKey != "" {
 			log = log.WithIdempotencyKey(parameters.IdempotencyKey)
 		}
+
+		commander.sequencing.Lock()
+		defer commander.sequencing.Unlock()
 
 		return executionContext.AppendLog(ctx, log)
 	})
